@@ -149,8 +149,20 @@ func (f *DefaultFanController) Run(ctx context.Context) error {
 	ui.Info("Loading fan curve data for fan '%s'...", fan.GetId())
 	fanPwmData, err := f.persistence.LoadFanPwmData(fan)
 	if err != nil {
-		_, ok := fan.(*fans.HwMonFan)
-		if ok {
+		hwMonFan, ok := fan.(*fans.HwMonFan)
+		if ok && hwMonFan.Config.MinPwm != nil && hwMonFan.Config.MaxPwm != nil {
+			// the boundaries are given by the user, no need to measure the RPM curve to estimate them
+			ui.Info("Fan '%s' has minPwm and maxPwm configured, skipping initialization sequence", fan.GetId())
+			placeholder := util.InterpolateLinearly(&map[int]float64{fans.MinPwmValue: fans.MinPwmValue, fans.MaxPwmValue: fans.MaxPwmValue}, fans.MinPwmValue, fans.MaxPwmValue)
+			err = fan.AttachFanRpmCurveData(&placeholder)
+			if err != nil {
+				return err
+			}
+			err = f.persistence.SaveFanPwmData(fan)
+			if err != nil {
+				return err
+			}
+		} else if ok {
 			ui.Warning("Fan '%s' has not yet been analyzed, starting initialization sequence...", fan.GetId())
 			err = f.RunInitializationSequence()
 			if err != nil {
